@@ -58,6 +58,52 @@ func (fr *Frame) newEnv(st, old *State) *Env {
 	return env
 }
 
+// inductionPhi: the unique header phi of a counting loop: an integer that enters the loop as the
+// constant 0 and is incremented by exactly 1 on every back edge.
+func inductionPhi(li *loopInfo) *ssa.Phi {
+	var found *ssa.Phi
+	for _, in := range li.header.Instrs {
+		phi, ok := in.(*ssa.Phi)
+		if !ok {
+			break
+		}
+		if !isIntType(phi.Type()) || phi.Comment == "rangeindex" {
+			continue
+		}
+		zeroIn, incIn, other := 0, 0, 0
+		for i, e := range phi.Edges {
+			pred := li.header.Preds[i]
+			if li.body[pred.Index] {
+				bo, ok := e.(*ssa.BinOp)
+				one := false
+				if ok && bo.Op == token.ADD && bo.X == phi {
+					if c, ok := bo.Y.(*ssa.Const); ok && c.Value != nil && c.Int64() == 1 {
+						one = true
+					}
+				}
+				if one {
+					incIn++
+				} else {
+					other++
+				}
+			} else {
+				if c, ok := e.(*ssa.Const); ok && c.Value != nil && c.Int64() == 0 {
+					zeroIn++
+				} else {
+					other++
+				}
+			}
+		}
+		if other == 0 && zeroIn >= 1 && incIn >= 1 {
+			if found != nil {
+				return nil
+			}
+			found = phi
+		}
+	}
+	return found
+}
+
 // fvResolve resolves the captured variables of a closure by name.
 func (fr *Frame) fvResolve(name string, st *State) (TV, bool) {
 	for _, fv := range fr.fn.FreeVars {
@@ -115,6 +161,23 @@ func (fr *Frame) resolveLocal(name string, st *State, li *loopInfo, phiEnv map[*
 					}
 				}
 				return TV{term: fr.val(phi), typ: phi.Type()}, true
+			}
+		}
+		if name == "rangeindex" {
+			// the loop is not a `range` loop (any more): a counting loop `for i := 0; ...; i++` has an
+			// induction variable that is one ahead of the range index at the loop head (the index of
+			// the last completed iteration) - the clause binds to i - 1
+			if phi := inductionPhi(li); phi != nil {
+				t := ""
+				if phiEnv != nil {
+					if tt, ok := phiEnv[phi]; ok {
+						t = tt
+					}
+				}
+				if t == "" {
+					t = fr.val(phi)
+				}
+				return TV{term: fr.vc.subInt(t, fr.vc.intLitN(1, phi.Type())), typ: phi.Type()}, true
 			}
 		}
 	}
@@ -647,6 +710,9 @@ func (e *Env) evalSel(n ESel) TV {
 					// package-level variable, e.g. io.EOF: its value is the global's content
 					name := "G_" + sanitize(shortPkg(p.Path())+"."+o.Name())
 					vc.simpleVar(name, vc.sortOf(o.Type()))
+					if isErrorSentinel(p.Path(), o.Name(), o.Type()) {
+						e.addFact("sentinel:"+name, fmt.Sprintf("(not (= (ityp %s) 0))", e.st.get(name)))
+					}
 					return TV{term: e.st.get(name), typ: o.Type()}
 				}
 				e.fail("%s.%s is not a constant, type or variable", id.Name, n.Sel)
@@ -1031,6 +1097,14 @@ func (e *Env) evalCall(n ECall, hint types.Type) TV {
 			e.fail("isptr(x, T)")
 		}
 		return TV{term: eq(fmt.Sprintf("(ityp %s)", a.term), fmt.Sprint(vc.typeID(types.NewPointer(tt.isType)))), typ: bt}
+	case "isdyn":
+		// isdyn(x, T): dynamic type of interface x is exactly T (a non-pointer type, e.g. syscall.Errno)
+		a := e.eval(n.Args[0], nil)
+		tt := e.eval(n.Args[1], nil)
+		if tt.isType == nil {
+			e.fail("isdyn(x, T)")
+		}
+		return TV{term: eq(fmt.Sprintf("(ityp %s)", a.term), fmt.Sprint(vc.typeID(tt.isType))), typ: bt}
 	case "dyn":
 		// dyn(x, T): the value of interface x asserted to pointer type T
 		a := e.eval(n.Args[0], nil)
